@@ -39,6 +39,7 @@ type caseT struct {
 	Names   []string    `json:"names"`
 	Bodies  []*gen.Node `json:"bodies"`
 	Missing int         `json:"missing_mask"`
+	Mesh    bool        `json:"mesh,omitempty"`
 }
 
 func (cs caseT) graph() *typegraph.Graph {
@@ -54,7 +55,7 @@ func (cs caseT) graph() *typegraph.Graph {
 }
 
 func (cs caseT) scCase() sc.Case {
-	c := sc.Case{Root: cs.Root}
+	c := sc.Case{Root: cs.Root, Mesh: cs.Mesh}
 	for i, n := range cs.Names {
 		if cs.Missing&(1<<uint(i)) == 0 {
 			c.Types = append(c.Types, sc.TypeDecl{Name: n, Body: cs.Bodies[i]})
@@ -122,8 +123,11 @@ func eval(cs caseT, trace func(string)) (string, string) {
 		return "false-missing", fmt.Sprintf("%s: every referenced type is added, yet Check reports %s", desc, chk)
 	}
 	// (c) recursion
-	rootInh := g.RootInhabited()
-	allInh := g.AllInhabited()
+	g.NullableTerminates = true
+	rootInh := g.RootInhabited() // lenient: "must reject" only if even null does not help
+	g.NullableTerminates = false
+	allInh := g.AllInhabited() // strict: "must not report recursion" only without relying on nullable
+	g.NullableTerminates = true
 	if !rootInh && chk.OK {
 		return "recursion-accepted", fmt.Sprintf("%s: a chain of required references returns to a type being expanded (no finite document exists), yet Check succeeds", desc)
 	}
@@ -211,7 +215,9 @@ func roots(names []string) []*gen.Node {
 	out := []*gen.Node{gen.Ref(names[0]), gen.Obj(gen.P("r", gen.Ref(names[0]))), gen.Arr(gen.Ref(names[0])),
 		gen.Obj(gen.P("r", gen.Ref(names[0]).With(gen.R("optional", "true"))))}
 	if len(names) > 1 {
-		out = append(out, gen.Ref(names[0], names[1]))
+		out = append(out, gen.Ref(names[0], names[1]),
+			gen.Obj(gen.P("x", gen.Ref(names[0])), gen.P("y", gen.Ref(names[1]))),
+			gen.Obj(gen.P("y", gen.Ref(names[1])), gen.P("x", gen.Ref(names[0]))))
 	}
 	return out
 }
@@ -222,6 +228,7 @@ func roots(names []string) []*gen.Node {
 // library's checker is built to see (root -> T -> T).
 func directSelfLoop(cs caseT) bool {
 	g := cs.graph()
+	g.NullableTerminates = true
 	inh := map[string]bool{}
 	for n, b := range g.Types {
 		if b == nil {
@@ -237,7 +244,7 @@ func directSelfLoop(cs caseT) bool {
 }
 
 func report(c *ev.Ctx, cs caseT, dir string) {
-	if dir == "recursion-accepted" && !directSelfLoop(cs) {
+	if dir == "recursion-accepted" && !directSelfLoop(cs) && !cs.Mesh {
 		// Known class (see known_findings.json): required recursion that is not a
 		// direct self-reference of a type named by the root. One key for the class.
 		_, desc := eval(cs, nil)
@@ -434,7 +441,7 @@ func canonical(x caseT) caseT {
 	// two-phase rename to avoid collisions
 	tmp := func(i int) string { return fmt.Sprintf("@zz%d", i) }
 	fin := func(i int) string { return fmt.Sprintf("@n%d", i) }
-	y := caseT{Root: x.Root, Missing: 0}
+	y := caseT{Root: x.Root, Missing: 0, Mesh: x.Mesh}
 	bodies := map[string]*gen.Node{}
 	miss := map[string]bool{}
 	for i, n := range x.Names {
@@ -476,6 +483,17 @@ func run(c *ev.Ctx) {
 		if dir != "" {
 			report(c, cs, dir)
 		}
+		if cs.Missing == 0 && len(cs.Names) <= 5 {
+			// the same graph with every type also added to every type schema
+			m := cs
+			m.Mesh = true
+			dir, _ := eval(m, trace)
+			c.Eval(true)
+			c.Inc("mesh_graphs")
+			if dir != "" {
+				report(c, m, dir)
+			}
+		}
 	}
 	// exhaustive small graphs
 	type cfg struct {
@@ -486,9 +504,9 @@ func run(c *ev.Ctx) {
 		allMasks bool
 		nroots   int
 	}
-	cfgs := []cfg{{1, true, true, false, true, 5}, {2, true, false, false, true, 5}, {3, false, false, false, false, 3}}
+	cfgs := []cfg{{1, true, true, false, true, 7}, {2, true, false, false, true, 7}, {3, false, false, false, false, 7}}
 	if c.Thorough() {
-		cfgs = []cfg{{1, true, true, false, true, 5}, {2, true, true, false, true, 5}, {3, false, true, false, true, 5}, {4, false, false, true, false, 3}}
+		cfgs = []cfg{{1, true, true, false, true, 7}, {2, true, true, false, true, 7}, {3, false, true, false, true, 7}, {4, false, false, true, false, 7}}
 	}
 	for _, cf := range cfgs {
 		names := []string{"@t0", "@t1", "@t2", "@t3"}[:cf.n]
@@ -659,6 +677,7 @@ func ForEachSchema(f func(sc.Case)) {
 			return
 		}
 		g := cs.graph()
+		g.NullableTerminates = true
 		if !g.AllInhabited() || !g.RootInhabited() {
 			return
 		}
